@@ -98,6 +98,7 @@ struct Conn {
     size_t b2c_emitted = 0, b2c_arrived = 0, b2c_consumed = 0;
     ns_t b2c_next_at = 0;
     int b2c_inflight = 0;
+    std::shared_ptr<std::string> b2c_tail; ns_t b2c_tail_at = 0; uint64_t b2c_tail_epoch = 0;   // last scheduled segment (coalescing)
     std::string rx;
     uint64_t epoch = 0;              // bumped on RST to drop in-flight segments
 
@@ -140,6 +141,7 @@ struct NetKnobs {
     double write_block_p = 0.4;                  // a delayed write is blocked (nothing accepted yet) rather than accepted with a late handler
     double short_write_p = 0.1;
     double seg_split_p = 0.3;                    // split a write into several segments
+    bool coalesce_b2c = false;                   // broker packets emitted at one instant travel in one segment (what a TCP stack does with a burst of small writes)
     int chunk_mode = -1;                         // -1 mixed, 0 all-available, 1 single bytes, 2 random
     ns_t connect_lat_max = 20 * MS;
     uint64_t chunk_salt = 0;                     // differential mode: changes only the read-chunking sub-stream
